@@ -113,21 +113,30 @@ _mut = st.one_of(
 _muts = st.one_of(st.just([]), st.lists(_mut, min_size=1, max_size=1), st.lists(_mut, min_size=1, max_size=2))
 # a request/recording = variant number (index into the history's small pool of variants of the base request, so that
 # the same near-miss occurs several times and interleaved) + mostly no further mutations
-_who = st.tuples(st.integers(0, 3), st.integers(0, 3).flatmap(lambda i: _muts if i == 0 else st.just([])))
+
+
+def _weighted(*pairs):
+    """one_of with integer weights (one_of drops repeated strategy *objects*, so every copy is a distinct .map(); this is
+    much cheaper to draw from than integers().flatmap())"""
+    out = []
+    for strat, w in pairs:
+        # wrapped in a 1-tuple: a mapped one_of would be flattened into its branches and change the weights
+        out.extend(st.tuples(strat).map(lambda t: t[0]) for _ in range(w))
+    return st.one_of(out)
+
+
+_who = st.tuples(st.integers(0, 3), _weighted((st.just([]), 3), (_muts, 1)))
 _rec = st.tuples(_who, st.sampled_from([True, True, True, True, True, False]))  # (who, has response)
 
-_opt_op = st.sampled_from(sorted(OPTS)).flatmap(
-    lambda k: st.tuples(st.just("opt"), st.just(k), st.sampled_from(OPTS[k])))
-_hash_opt_op = st.sampled_from(HASH_OPTS).flatmap(
-    lambda k: st.tuples(st.just("opt"), st.just(k), st.sampled_from(OPTS[k])))
+_opt_op = st.one_of([st.tuples(st.just("opt"), st.just(k), st.sampled_from(OPTS[k])) for k in sorted(OPTS)])
+_hash_opt_op = st.one_of([st.tuples(st.just("opt"), st.just(k), st.sampled_from(OPTS[k])).map(lambda x: x) for k in HASH_OPTS])
 _req_op = st.tuples(st.just("req"), _who)
 _misc_op = st.one_of(st.tuples(st.just("clear")),
                       st.tuples(st.just("load"), st.lists(_rec, min_size=1, max_size=4)),
                       st.tuples(st.just("count")),
                       st.tuples(st.just("add"), st.lists(_rec, min_size=1, max_size=3)),
                       st.tuples(st.just("add"), st.lists(_rec, min_size=1, max_size=3)).map(list))
-# (one_of drops repeated strategy objects, so weights are given through an index)
-_op = st.integers(0, 11).flatmap(lambda i: _req_op if i < 7 else _hash_opt_op if i < 9 else _opt_op if i < 11 else _misc_op)
+_op = _weighted((_req_op, 7), (_hash_opt_op, 2), (_opt_op, 2), (_misc_op, 1))
 
 
 def strategy(ctx):
